@@ -364,12 +364,16 @@ func fastSignECDSA(d *big.Int, hash []byte, k *big.Int) (r, s *big.Int, ok bool)
 
 // fastSignSchnorr is BIP340 default signing with a zero aux value.
 func fastSignSchnorr(d0 *big.Int, pub secp.Point, msg []byte) []byte {
+	return fastSignSchnorrAux(d0, pub, msg, make([]byte, 32))
+}
+
+func fastSignSchnorrAux(d0 *big.Int, pub secp.Point, msg, aux []byte) []byte {
 	d := new(big.Int).Set(d0)
 	if pub.Y.Bit(0) == 1 {
 		d.Sub(secp.N, d0)
 	}
 	t := secp.Bytes32(d)
-	ah := secp.TaggedHash("BIP0340/aux", make([]byte, 32))
+	ah := secp.TaggedHash("BIP0340/aux", aux)
 	for i := range t {
 		t[i] ^= ah[i]
 	}
